@@ -44,11 +44,11 @@ def rule_pos_atomic_rmw(ctx, crate, rule="R-POS-ATOMIC-RMW"):
     cfg = crate.config
     cs = pos_atomic_calls(crate)
     ctx.floor(rule, len(cs), 6, cfg, "atomic operations on AtomicPosition::pos")
-    allowed = {"fetch_add", "fetch_sub", "store", "load", "new"}
+    allowed = {"fetch_add", "fetch_sub", "store", "swap", "load", "new"}   # each is one atomic operation
     for c in cs:
         m = K.meth(c.path)
         ctx.check(m in allowed, rule, "op:%s" % m, c.body.name, c.loc(), "position accessed with the single atomic operation %s" % m,
-                  "position accessed with %s (not one of fetch_add/fetch_sub/store/load)" % m, cfg)
+                  "position accessed with %s (not one of the single-operation accesses fetch_add/fetch_sub/store/swap/load)" % m, cfg)
         if m in ("store", "fetch_add", "fetch_sub", "swap", "compare_exchange", "compare_exchange_weak", "fetch_update"):
             sl = c.body.slice_args(c, [1])
             loads = [x for x in sl.calls if x.matches(r"portable_atomic::AtomicU64::(load|fetch_\w+|swap)") and c.body.slice_args(x, [0]).has_field("pos", AP)]
@@ -61,7 +61,7 @@ def rule_pos_atomic_rmw(ctx, crate, rule="R-POS-ATOMIC-RMW"):
         if not b:
             continue
         ops = [c for c in cs if c.body.name == b.name]
-        ok = len(ops) == 1 and K.meth(ops[0].path) == want and b.slice_args(ops[0], [1]).params() == {2} and not b.slice_args(ops[0], [1]).calls \
+        ok = len(ops) == 1 and (K.meth(ops[0].path) == want or (want == "store" and K.meth(ops[0].path) == "swap")) and b.slice_args(ops[0], [1]).params() == {2} and not b.slice_args(ops[0], [1]).calls \
             and b.must_pass([0], [ops[0].bb])
         ctx.check(ok, rule, "%s=%s(param)" % (K.meth(fn), want), b.name, K.fn_loc(b), "%s is exactly pos.%s(delta)" % (K.meth(fn), want),
                   "%s is not a single %s of its argument" % (K.meth(fn), want), cfg)
